@@ -154,3 +154,11 @@ pub trait Checked { fn problems(&self) -> Vec<u8>; fn check(&self) -> Result<(),
 pub struct Req { pub n: u128 }
 impl Checked for Req { fn problems(&self) -> Vec<u8> { let mut v = vec![]; if self.n < 1 { v.push(4u8); } v } }
 pub fn t_provided(r: Req) -> Result<(), u8> { r.check() }
+
+// normal forms of round 7: membership by any/all with an equality closure, nested subset test, identity map, fold(0,+), len()==0
+pub fn t_any_eq(v: Vec<String>, x: String) -> bool { v.iter().any(|e| e == &x) }
+pub fn t_all_ne(v: Vec<String>, x: String) -> bool { v.iter().all(|e| e != &x) }
+pub fn t_subset(cur: Vec<String>, new: Vec<String>) -> bool { cur.iter().all(|c| new.iter().any(|n| n.as_str() == c.as_str())) }
+pub fn t_fold_sum(v: Vec<u128>) -> u128 { v.iter().map(|e| *e).fold(0u128, |a, e| a + e) }
+pub fn t_len_zero(v: Vec<u128>) -> bool { v.len() == 0 }
+pub fn t_len_pos(v: Vec<u128>) -> bool { v.len() > 0 }
